@@ -38,10 +38,13 @@ def sh(cmd, **kw):
 def main():
     prop, work = sys.argv[1], sys.argv[2]
     only = None
+    label = ""
     for i, a in enumerate(sys.argv):
         if a == "--checks":
             only = sys.argv[i + 1].split(",")
-    wt = f"/tmp/wt_benign_{prop}"
+        if a == "--label":
+            label = sys.argv[i + 1] + "-"
+    wt = f"/tmp/wt_benign_{prop}{label.strip('-')}"
     sh(f"git -C /repo worktree remove --force {wt}")
     assert sh(f"git -C /repo worktree add --detach {wt} HEAD").returncode == 0
     try:
@@ -73,18 +76,25 @@ def main():
                               "wall_s": round(time.time() - t0, 1), "tail": lines[-1:]}
             confirmed = ("12 failed, 187 passed" in suite) and base_eq.returncode == 0 and mut_eq.returncode == 0
             quiet = all(v["exit"] == 0 for v in results.values())
-            out = os.path.join("/verif/benign", f"{prop}-{b}")
+            out = os.path.join("/verif/benign", f"{prop}-{label}{b}")
             os.makedirs(out, exist_ok=True)
             for f in ("patch.diff", "equiv.py", "note.txt"):
                 if os.path.exists(os.path.join(d, f)):
                     shutil.copy(os.path.join(d, f), os.path.join(out, f))
             note = open(os.path.join(d, "note.txt")).read() if os.path.exists(os.path.join(d, "note.txt")) else ""
-            meta = {"property": prop, "id": f"{prop}-{b}", "what_changes": note.strip(), "files": files,
+            meta = {"property": prop, "id": f"{prop}-{label}{b}", "what_changes": note.strip(), "files": files,
                     "confirmed_benign": confirmed, "suite_with_change": suite, "equiv_on_clean_tree_exit": base_eq.returncode,
                     "equiv_with_change_exit": mut_eq.returncode,
                     "what_was_run": f"git apply patch.diff in a scratch worktree; pytest suite; equiv.py; VERIF_REPO=<worktree> ./check {' '.join(checks)} --tier quick",
                     "checks": results, "no_alarm": quiet, "base_commit": sh("git -C /repo rev-parse --short HEAD").stdout.strip()}
-            json.dump(meta, open(os.path.join(out, "meta.json"), "w"), indent=1)
+            old = os.path.join(out, "meta.json")
+            if os.path.exists(old):      # keep the record of an earlier run (e.g. the false alarm that was then corrected)
+                prev = json.load(open(old))
+                hist = prev.pop("earlier_runs", [])
+                hist.append({"checks": {c: {k: v[k] for k in ("exit", "clauses", "machinery")} for c, v in prev.get("checks", {}).items()},
+                             "no_alarm": prev.get("no_alarm")})
+                meta["earlier_runs"] = hist
+            json.dump(meta, open(old, "w"), indent=1)
             print(b, "confirmed" if confirmed else f"NOT-CONFIRMED(suite={suite!r}, base={base_eq.returncode}, mut={mut_eq.returncode})",
                   "QUIET" if quiet else "ALARM", {c: (v["exit"], v["clauses"][:3], v["machinery"][:1]) for c, v in results.items() if v["exit"]})
     finally:
